@@ -154,7 +154,7 @@ void run_lifeprobe(const std::vector<std::string> &w, out &o)
 // the oracle also judges the strong guarantee: head / tail / avail / stored elements unchanged),
 // `e` = `emplace(head_place())` (the argument aliases the slot: emplace has no aliasing test) - it leaves an
 // event the lifetime clause forbids (finding C03-emplace-alias-head-slot): in a `lifecount` line it is an `@F:`
-// probe; `lifeviol <n> <script>` is the same run whose oracle judges the VALUE clauses only while the five
+// probe; `lifeviol <n> <script>` is the same run whose oracle judges the VALUE clauses only while the
 // counters are compared with the model.
 void run_lifecount(const std::vector<std::string> &w, out &o)
 {
@@ -231,7 +231,10 @@ void run_lifecount(const std::vector<std::string> &w, out &o)
     if (strict && LG.dead_read) o.fail(S(LG.dead_read) + " copies from a slot without a living object");
     if (!LG.live.empty()) o.fail(S(LG.live.size()) + " objects never destroyed");
     if (strict && LG.ctor != LG.dtor) o.fail(S(LG.ctor) + " constructor calls on ring slots, " + S(LG.dtor) + " destructor calls");
-    o.result = S(LG.over_live) + " " + S(LG.dead_dtor) + " " + S(LG.dead_read) + " " + S(LG.ctor) + " " + S(LG.dtor);
+    // (round 3b correction: HOW MANY constructor / destructor calls an operation makes is not fixed by anything the
+    // property or the lifetime clause states - pop may assign T() instead of destroy + construct -; compared is
+    // the balance constructor calls - destructor calls, which must be 0)
+    o.result = S(LG.over_live) + " " + S(LG.dead_dtor) + " " + S(LG.dead_read) + " " + S(LG.ctor - LG.dtor);
     if (LG.over_live) o.tag("over-live");
     if (LG.dead_dtor) o.tag("dead-dtor");
     if (LG.dead_read) o.tag("dead-read");
@@ -298,7 +301,7 @@ void run_arr(const std::vector<std::string> &w, out &o)
     if (LG.dead_dtor) o.fail(S(LG.dead_dtor) + " destructor calls on a slot without a living object");
     if (LG.dead_assign) o.fail(S(LG.dead_assign) + " assignments to a slot without a living object");
     if (LG.ctor != LG.dtor) o.fail(S(LG.ctor) + " constructor calls on array slots, " + S(LG.dtor) + " destructor calls");
-    o.result = res + " | " + S(LG.ctor) + " " + S(LG.dtor) + " " + S(LG.dead_dtor) + " " + S(LG.dead_assign);
+    o.result = res + " | " + S(LG.ctor - LG.dtor) + " " + S(LG.dead_dtor) + " " + S(LG.dead_assign);
     for (void *p : LG.blocks) free(p);
     LG = Ledger();
     o.tag("uarray");
